@@ -176,3 +176,76 @@ func VerifC15_M_read_fault() {
 	}
 	sym.Reach("C15.M.fault")
 }
+
+// chain A <- B <- T: B's blob is lost while its result entry remains and T is edited. Re-running B
+// needs A's outputs in the workspace first (recursive loading of the dependency's dependencies).
+func c15Chain(name string, mode config.LoadOutputsMode, loseB bool) (bool, string) {
+	resetCommands()
+	config.Global.Root = "/grogroot-" + name
+	config.Global.WorkspaceRoot = sym.TempDir(name)
+	config.Global.OS, config.Global.Arch = "linux", "amd64"
+	_ = os.MkdirAll(wsPath("p"), 0755)
+	w := &world{ctx: newWorldCtx()}
+	cmdModel["build-a"] = &cmdBehaviour{writes: map[string]string{"p/a.txt": "A"}}
+	cmdFuncs["build-b"] = func() error {
+		a, err := os.ReadFile(wsPath("p/a.txt"))
+		if err != nil {
+			return err // B needs A's output
+		}
+		return os.WriteFile(wsPath("p/b.txt"), []byte("B:"+string(a)), 0644)
+	}
+	tee := func(cmd string) func() error {
+		return func() error {
+			b, err := os.ReadFile(wsPath("p/b.txt"))
+			if err != nil {
+				return err
+			}
+			return os.WriteFile(wsPath("p/t.txt"), []byte(cmd+":"+string(b)), 0644)
+		}
+	}
+	cmdFuncs["build-t"] = tee("T1")
+	cmdFuncs["build-t-edited"] = tee("T2")
+	mk := func(tCmd string) []model.BuildNode {
+		a := fileTarget("a", "build-a", "a.txt")
+		b := fileTarget("b", "build-b", "b.txt")
+		b.Dependencies = []label.TargetLabel{a.Label}
+		t := fileTarget("t", tCmd, "t.txt")
+		t.Dependencies = []label.TargetLabel{b.Label}
+		return []model.BuildNode{a, b, t}
+	}
+	runAll := func(p *process, nodes []model.BuildNode) bool {
+		for _, n := range nodes {
+			if _, err := p.run(w.ctx, n.(*model.Target)); err != nil {
+				return false
+			}
+		}
+		return true
+	}
+	n1 := mk("build-t")
+	p1 := w.newProcess(true, config.LoadOutputsAll, n1...)
+	sym.Assert(runAll(p1, n1), "C15.setup.chain-first-build")
+	for _, f := range []string{"p/a.txt", "p/b.txt", "p/t.txt"} {
+		_ = os.Remove(wsPath(f))
+	}
+	if loseB {
+		tr, err := p1.e.targetCache.Load(w.ctx, n1[1].(*model.Target).ChangeHash)
+		if err == nil && len(tr.Outputs) == 1 {
+			_ = os.Remove(filepath.Join(config.Global.GetWorkspaceCacheDirectory(), "cas", tr.Outputs[0].GetFile().GetDigest().GetHash()))
+		}
+	}
+	n2 := mk("build-t-edited")
+	p2 := w.newProcess(true, mode, n2...)
+	ok := runAll(p2, n2)
+	got, _ := readWS("p/t.txt")
+	return ok, got
+}
+
+func VerifC15_M_chain_lost_middle_blob() {
+	lose := flag("middle_blob_lost")
+	okAll, outAll := c15Chain("wall", config.LoadOutputsAll, lose)
+	okMin, outMin := c15Chain("wmin", config.LoadOutputsMinimal, lose)
+	sym.Assert(okAll, "C15.M1.chain-builds-in-mode-all")
+	sym.Assert(okMin == okAll, "C15.M1.chain-same-success-in-both-modes")
+	sym.Assert(outMin == outAll && outAll == "T2:B:A", "C15.M4.chain-same-bytes-in-both-modes")
+	sym.Reach("C15.M.chain")
+}
